@@ -287,3 +287,15 @@ Theorem C19_joined_by_name_refuted :
   exists name uris, NoDup uris /\ ~ In 0 (joined_by_name name uris) /\ In 0 (joined_list uris).
 Proof. exact joined_by_name_refuted. Qed.
 Print Assumptions C19_joined_by_name_refuted.
+
+(* ---- Wave 16: the per-member action of open_links is open_link() alone: it ends whenever open_link() ends, whether
+   or not the member's parameter download ever completes (so C19_no_deadlock / C19_maximal_run_finished apply to
+   open_links); the variant that waits for the parameters does not end on a link that dropped before fully_connected. *)
+Theorem C19_member_open_ends : forall params_complete, member_open_ends true params_complete = true.
+Proof. reflexivity. Qed.
+Print Assumptions C19_member_open_ends.
+
+Theorem C19_member_open_waiting_refuted :
+  member_open_waiting_ends true false = false /\ member_open_ends true false = true.
+Proof. split; reflexivity. Qed.
+Print Assumptions C19_member_open_waiting_refuted.
